@@ -64,6 +64,7 @@ struct Link {
     /// two more connected clients: broadcasts go to all three, so that the server's send loop
     /// works on several connections at once
     peers: Vec<App>,
+    port: u16,
 }
 
 fn make_app(is_client: bool) -> App {
@@ -127,7 +128,7 @@ fn build() -> Link {
     }
     assert!(client.world().resource::<RepliconClient>().is_connected());
     for p in peers.iter() { assert!(p.world().resource::<RepliconClient>().is_connected()); }
-    Link { server, client, peers }
+    Link { server, client, peers, port }
 }
 
 thread_local! {
@@ -175,7 +176,50 @@ pub fn exec(line: &str, out: &mut Out) {
             *l = Some(build());
         }
         let link = l.as_mut().unwrap();
-        let Link { server, client, peers } = link;
+        if t[1] == "dir=join" {
+            // a client that connects now: the server accepts it and sends before the newcomer's first frame
+            let port = link.port;
+            let mut joiner = make_app(true);
+            joiner.insert_resource(ExampleClient::new(port).expect("connect"));
+            for _ in 0..3 {
+                link.server.update();
+                std::thread::sleep(std::time::Duration::from_millis(2));
+            }
+            for b in &batches {
+                for &(ch, seq, size) in b { send(&mut link.server, true, ch, seq, size); }
+                link.server.update();
+            }
+            std::thread::sleep(std::time::Duration::from_millis(5));
+            let mut frames = 0;
+            let mut first_pass = 0;
+            while frames < 400 {
+                joiner.update();
+                frames += 1;
+                let n = joiner.world().resource::<Log>().0.len();
+                if frames == 1 { first_pass = n; }
+                if n >= total { break; }
+                std::thread::sleep(std::time::Duration::from_micros(200));
+            }
+            for _ in 0..2 { joiner.update(); }
+            let log = &joiner.world().resource::<Log>().0;
+            let mut parts = Vec::new();
+            for ch in 0..3u8 {
+                let seqs: Vec<String> = log.iter().filter(|e| e.0 == ch).map(|e| e.1.to_string()).collect();
+                parts.push(format!("ch{ch}={}", if seqs.is_empty() { "-".to_string() } else { seqs.join(",") }));
+            }
+            let intact = log.iter().all(|e| e.3);
+            writeln!(out, "= {} intact={} first_pass={} frames={}", parts.join(" "), intact as u8, first_pass, frames).unwrap();
+            // the newcomer leaves again; the link's own clients drain what they were sent
+            drop(joiner);
+            for _ in 0..4 {
+                link.server.update();
+                link.client.update();
+                for p in link.peers.iter_mut() { p.update(); }
+                std::thread::sleep(std::time::Duration::from_millis(1));
+            }
+            return;
+        }
+        let Link { server, client, peers, .. } = link;
         let (tx, rx) = if s2c { (server, client) } else { (client, server) };
         rx.world_mut().resource_mut::<Log>().0.clear();
         for p in peers.iter_mut() { p.world_mut().resource_mut::<Log>().0.clear(); }
@@ -261,6 +305,8 @@ pub fn generate(opts: &Opts, out: &mut Out) {
                 .collect();
             bs.push(if ms.is_empty() { "-".to_string() } else { ms.join(",") });
         }
-        exec(&format!("c17 dir={} b={}", if s2c { "s2c" } else { "c2s" }, bs.join(";")), out);
+        // one case in eight: a client that has just connected, before its first frame
+        let dir = if k % 8 == 7 { "join" } else if s2c { "s2c" } else { "c2s" };
+        exec(&format!("c17 dir={dir} b={}", bs.join(";")), out);
     }
 }
